@@ -37,7 +37,7 @@ CHECKS = {
 
 CHECKS["C06"] = dict(engine="siminst", cat="exploration", tech="deterministic simulation: seeded interleavings (at operation boundaries) of instantiations and calls on 1-4 live instances of seeded module variants, per-instance / per-object reference model compared after every operation",
    text="Eight (thorough: 32) seeded variants of a generated module family - defined, imported or shared memory; defined or imported table; imported globals used as segment offsets and initialisers; overlapping, zero-length, last-byte and all-zero active data segments; a passive segment; element segments; optional start function with a host call - are translated by the current translator. Client tasks instantiate them on own or shared resolver objects and call exported getters/setters, loads/stores, grow, memory.init and call_indirect; the scheduler interleaves the clients. After every operation all live instances, memory objects and tables are compared with the model: initial state (sizes, segment order, globals, table slots), start function exactly once and after the segments, persistence, isolation of defined state, binding of imports, reachability of '<module>_<name>' exports.",
-   note="operations are atomic in the model (interleaving at operation boundaries); NewChild is not exercised here; a generated family, not arbitrary programs", ref="5/C06")
+   note="operations are atomic in the model (interleaving at operation boundaries); child instances only for variants without shared memory; a generated family, not arbitrary programs", ref="5/C06")
 E2 = "E2 simxl: every w2c2/*.c of the working tree (main renamed w2c2_main) run in a forked child per simulated run on a tmpfs scratch tree; pthread pool under the simcore baton scheduler (preemption at sync ops, I/O calls, instrumented loads/stores), simulated CPU count/exit, fopen/fclose faults, record-and-refuse monitor on mutating libc calls; clang ASan + memory-related UBSan checks"
 CHECKS.update({
  "C09": dict(engine="simxl", cat="exploration", tech="deterministic simulation: seeded schedules of the producer/worker pool (random walk + PCT, spurious wake-ups, thread-create failures) with byte-for-byte comparison of every output set against the unpreempted single-thread run; auxiliary compile and spec-assert behaviour samples for option variants",
